@@ -199,3 +199,24 @@ class FakeTransportHgi:
 class FakeProtocolHgi:
     def __init__(self, hgi_id):
         self.hgi_id = hgi_id
+
+
+def base_init_stub(self, msg_handler):
+    self._ghost_base_init = True
+
+
+@harness("C10", stubs={P._BaseProtocol.__init__: base_init_stub})
+def filter_lists_are_set_up():
+    """_DeviceIdFilterMixin.__init__: the block list is exactly the configured block list; the known
+    list holds every configured id plus the broadcast (63:262142) and the null (--:------)
+    address -- which the packet filter relies on to let all-allowed packets through."""
+    a, b, c = sym_dev("a"), sym_dev("b"), sym_dev("c")
+    assume(a != b)
+    pr = new_object(P.ReadProtocol)
+    o = outcome(P._DeviceIdFilterMixin.__init__, pr, opaque("handler"), enforce_include_list=sym_bool("enforce"),
+                exclude_list={c: {}}, include_list={a: {}, b: {"class": "HGI"}})
+    check(o.ok, "the filter mixin initialises")
+    check(And(a in pr._include, b in pr._include), "every configured known id is in the known list")
+    check(And(ALL in pr._include, NON in pr._include), "the broadcast and the null address are always allowed")
+    check(And(c in pr._exclude, len(pr._exclude) == 1), "the block list is the configured one")
+    check(pr._active_hgi is None, "no gateway is active before one is seen")
